@@ -53,6 +53,24 @@ impl Property for C18 {
     }
 
     fn generate(&self, rng: &mut Rng, thorough: bool) -> J {
+        if rng.chance(if thorough { 4 } else { 1 }, 4000) {
+            // huge regime: one group with more values than any in-memory cap a change might introduce (65536)
+            let n = rng.range(66_000, 90_000) as usize;
+            let lines: Vec<String> = (0..n).map(|i| format!("W a {} 0.5 b {} 0.25 c 1 0.75 d", (i as u64 * 7919) % 100_003, i % 7)).collect();
+            let keys: Vec<[u8; 16]> = (0..3).map(|_| rng.key16()).collect();
+            return json!({
+                "prop": "C18",
+                "kind": "huge_group",
+                "defs": format!("{} {}", WIDE, JOINED),
+                "stmt": "SELECT PERCENTILE(c1, 0.5) AS median, PERCENTILE(c1, 0.99) AS p99, COUNT(DISTINCT c1) AS d, COUNT(*) AS c FROM w",
+                "lines": lines,
+                "joined": [],
+                "keys": keys_to_json(&keys),
+                "repeat": 1,
+                "format": "text",
+                "os_entropy": false,
+            });
+        }
         let kind = *rng.pick(&["star", "star_join", "group", "group", "distinct_real", "distinct_real", "join_real", "join_int", "error_row", "group_special_real", "group_special_real", "name_lookup", "many_groups"]);
         let zero_heavy = kind == "distinct_real" || kind == "join_real" || kind == "group_special_real" || rng.chance(1, 4);
         // REAL values that are not ordinary numbers: NaN, infinities (legal literals for a REAL column)
